@@ -202,6 +202,15 @@ class ImplWorld:
         t = lambda x: 'true' if x else 'false'
         return 'cmp eq=%s lt=%s gt=%s le=%s ge=%s hash=%s' % (t(a == b), t(a < b), t(a > b), t(a <= b), t(a >= b), t(hash(a) == hash(b)))
 
+    def op_peek(self, h, which):
+        o = self._obj(h)
+        if which == 'rotate':
+            a, b = next(o.rotate())
+            return 'peek ' + ' '.join(map(str, a)) + ' / ' + ''.join(b)
+        from dsdobjects import complex_utils as cx
+        a, b = next(o.rotate_pt())
+        return 'peek ' + ' '.join(map(str, cx.strand_table_to_sequence(a))) + ' / ' + cx.pair_table_to_dot_bracket(b, join=True)
+
     def op_set_turns(self, h, v):
         self._obj(h).turns = int(v)
         return 'ok'
